@@ -41,9 +41,11 @@ Inductive instr :=
 | IReadRT | IPersistRTloc | IReadTT | IPersistTTloc      (* pre-fix: argument evaluated / Put issued after Unlock *)
 | ILoadBal                                               (* Pay: balance := retrieveTraffic - retrieveChequeTraffic *)
 | IIssue (th : Z) | IPersistSend | IDoneSend             (* Pay: issue + putSendCheque *)
-| IRecvStore (p : Z) | IRecvMem (p : Z) | IDoneRecv (p : Z). (* ReceiveCheque *)
+| IRecvStore (p : Z) | IRecvMem (p : Z) | IDoneRecv (p : Z) (* ReceiveCheque *)
+| IRefresh                                               (* trafficInit (24 h refresh): trafficPeerChequeUpdate rebuilds the record from the store under the peer lock *)
+| IReadDiskRT | IRefreshLoc.                             (* a variant that reads the stored total BEFORE taking the lock (regression witness only) *)
 
-Inductive op := PutR (a : Z) | PutT (a : Z) | Pay (th : Z) | Recv (p : Z).
+Inductive op := PutR (a : Z) | PutT (a : Z) | Pay (th : Z) | Recv (p : Z) | Refresh.
 
 (** a region: (needs the peer lock?, instructions) *)
 Definition region := (bool * list instr)%type.
@@ -56,6 +58,7 @@ Definition compile (fixed : bool) (o : op) : list region :=
               else [(true, [IAddTT a]); (false, [IReadTT]); (false, [IPersistTTloc; IDoneT a])]
   | Pay th => [(true, [ILoadBal]); (true, [IIssue th; IPersistSend; IDoneSend])]
   | Recv p => [(true, [IRecvStore p; IRecvMem p; IDoneRecv p])]
+  | Refresh => if fixed then [(true, [IRefresh])] else [(false, [IReadDiskRT]); (true, [IRefreshLoc])]
   end.
 
 Record thread := { cur : list instr; inlock : bool; todo : list region; loc : Z; flag : bool }.
@@ -105,6 +108,9 @@ Definition exec_instr (i : instr) (m : fields) (d : dsk) (g : ghost) (l : Z) (f 
   | IRecvStore p => if lastRecv d <? p then (m, d_set_recv d p, g, l, true) else (m, d, g, l, false)
   | IRecvMem p => if f then (set_tC m p, d, g, l, f) else (m, d, g, l, f)
   | IDoneRecv p => if f then (m, d, g_recv g p, l, f) else (m, d, g, l, f)
+  | IRefresh => (restore d, d, g, l, f)
+  | IReadDiskRT => (m, d, g, s_rT d, f)
+  | IRefreshLoc => let r := restore d in (set_rT r (Z.max (rC r) l), d, g, l, f)
   end.
 
 Fixpoint set_nth {A} (l : list A) (n : nat) (x : A) : list A :=
@@ -173,6 +179,6 @@ Fixpoint run_epochs (fixed : bool) (d : dsk) (g : ghost) (es : list epoch) : dsk
 Definition fle (a b : fields) : Prop := rT a <= rT b /\ rC a <= rC b /\ tT a <= tT b /\ tC a <= tC b.
 
 Definition op_ok (o : op) : Prop :=
-  match o with PutR a | PutT a => 0 <= a | Pay th => 0 <= th | Recv _ => True end.
+  match o with PutR a | PutT a => 0 <= a | Pay th => 0 <= th | Recv _ | Refresh => True end.
 Definition op_okb (o : op) : bool :=
-  match o with PutR a | PutT a => 0 <=? a | Pay th => 0 <=? th | Recv _ => true end.
+  match o with PutR a | PutT a => 0 <=? a | Pay th => 0 <=? th | Recv _ | Refresh => true end.
